@@ -127,6 +127,13 @@ func (st *State) call(f *Frame, ins ssa.Instruction, cc *ssa.CallCommon, opts *c
 		}
 		st.res.Assumed["calls through function values (here in "+f.fn.Name()+") are assumed not to panic"] = true
 		res := st.freshResult("dyncall", resT)
+		if fnv.Term != "" && st.known[app("fn_pure", fnv.Term)] && res.Tuple == nil && res.S == SBool {
+			// a pure predicate: what it answers is a function of the function value and the
+			// arguments (the same term that apply(f, ...) stands for in specifications)
+			if name, ts, ok := st.fnAppTerm(fnv.Term, args); ok {
+				st.assume(eq(res.Term, app(name, ts...)))
+			}
+		}
 		if fnv.Term != "" {
 			st.eng.pre.Fun("fn_ret_nonnil", "(Ref) Bool")
 			nn := app("fn_ret_nonnil", fnv.Term)
@@ -964,6 +971,23 @@ func (st *State) builtin(f *Frame, ins ssa.Instruction, b *ssa.Builtin, cc *ssa.
 	return Value{S: "Tuple"}
 }
 
+// fnAppTerm: the uninterpreted application "result of the pure boolean function value f on args".
+func (st *State) fnAppTerm(f string, args []Value) (string, []string, bool) {
+	name := "fnapp_B"
+	sorts := []string{"Ref"}
+	ts := []string{f}
+	for _, a := range args {
+		if a.Term == "" || a.S == "" || a.S == "Tuple" {
+			return "", nil, false
+		}
+		name += "_" + a.S.Mangle()
+		sorts = append(sorts, string(a.S))
+		ts = append(ts, a.Term)
+	}
+	st.eng.pre.Fun(name, "("+strings.Join(sorts, " ")+") Bool")
+	return name, ts, true
+}
+
 // appendStructs: append to a slice of structs. The result is the fresh array r (in-place growth
 // is not modelled for slices of structs, see the assumption): its first len(s) elements are
 // copies of the old ones, field by field, and the appended ones follow (exact for up to four).
@@ -1058,9 +1082,16 @@ func (st *State) appendInPlace(freshRes Value, r string, s, t Value, tl, nl stri
 			start, end, ia, oldArr, ia))
 		if t.S != SStr {
 			tArr := app("select", arr, app("s_ref", t.Term))
+			// (quantifier-free instances for the first two appended elements, if there are that many)
+			for k := int64(0); k < 2; k++ {
+				has := app("bvslt", bvInt(k, 64), tl)
+				v := app("select", tArr, app("bvadd", app("s_off", t.Term), bvInt(k, 64)))
+				st.assume(imp(has, and(eq(app("select", na, app("bvadd", ln, bvInt(k, 64))), v), eq(app("select", ia, app("bvadd", start, bvInt(k, 64))), v))))
+			}
 			for _, p := range [][2]string{{na, ln}, {ia, start}} {
-				st.assume(fmt.Sprintf("(forall ((i (_ BitVec 64))) (! (=> (and (bvsle (_ bv0 64) i) (bvslt i %s)) (= (select %s (bvadd %s i)) (select %s (bvadd %s i)))) :pattern ((select %s (bvadd %s i)))))",
-					tl, p[0], p[1], tArr, app("s_off", t.Term), p[0], p[1]))
+				// (stated over the absolute index j, so that any read of the new array triggers it)
+				st.assume(fmt.Sprintf("(forall ((j (_ BitVec 64))) (! (=> (and (bvsle %s j) (bvslt j (bvadd %s %s))) (= (select %s j) (select %s (bvadd %s (bvsub j %s))))) :pattern ((select %s j))))",
+					p[1], p[1], tl, p[0], tArr, app("s_off", t.Term), p[1], p[0]))
 			}
 		}
 	}
